@@ -188,7 +188,10 @@ def search(ctx, broken, seeds):
             return {"input": {"op": "generate", "key": key.hex(), "alg": alg, "digits": digits, "period": period, "time": tm}, "observed": got, "expected": exp}
         for fmt, text in (("hex", t.hex_key), ("base32", t.base32_key)):
             for v in (text, text.lower(), " ".join(text), "-".join(text[i:i + 4] for i in range(0, len(text), 4))):
-                k2 = TOTP(key=v, format=fmt).key
+                try:
+                    k2 = TOTP(key=v, format=fmt).key
+                except Exception as e:  # noqa: BLE001
+                    return {"input": {"op": "key", "format": fmt, "text": v, "key_bytes": len(key)}, "observed": errname(e) + ": " + str(e)[:80], "expected": key.hex()}
                 if k2 != key:
                     return {"input": {"op": "key", "format": fmt, "text": v}, "observed": k2.hex(), "expected": key.hex()}
     return None
